@@ -2135,6 +2135,8 @@ class HDKey(Key):
         elif path[0] == 'M':  # Use Public master key
             path = path[1:]
             first_public = True
+        if first_public and not path and key.is_private:
+            key = key.public()
         if path:
             if len(path) > 1:
                 _logger.info("Path length > 1 can be slow for larger paths, use Wallet Class to generate keys paths")
